@@ -59,7 +59,8 @@ Fixpoint beq (a b : list Byte.byte) : bool :=
   | _, _ => false
   end.
 
-Definition good_discb (d : disc) : bool := negb (put_on_hijack d) && negb (put_early d) && negb (fork_alias d).
+Definition good_discb (d : disc) : bool :=
+  negb (put_on_hijack d) && negb (put_early d) && negb (fork_alias d) && negb (adopt_tmp d).
 
 Definition life_disc (l : string) : option disc :=
   if String.eqb l "server" then Some server_disc
@@ -70,7 +71,7 @@ Definition life_disc (l : string) : option disc :=
 Definition check (c : c08case) : bool :=
   match c with
   | CPool kind evs seen =>
-      let d := if Z.eqb kind 1 then unconditional_put_disc else mkDisc false false false in
+      let d := if Z.eqb kind 1 then unconditional_put_disc else clean_disc in
       let s := prun d pinit (map ev_of evs) in
       forallb (fun p => beq (got_of s (zn (fst p))) (rle (snd p))) seen
   | CStress life procs nconn checked bad =>
